@@ -304,6 +304,7 @@ func runC07(c *Ctx) {
 		return name == "reject:type0-inside-unfinished-message" || name == "reject:length-changed-mid-message"
 	})
 	checkMessageDetached(c, "C07.bounds")
+	checkChunkSizeUnsigned(c)
 	// the guarantee side of the advance contract for AMF0 values (UnmarshalBinary(p) == nil => Size() <= len(p), the
 	// decoder having consumed exactly Size() bytes): every AMF0 decoder on its own encodings, nested containers included
 	amfDecodeChecks(c, newAmfEngine(c), "C07.bounds", "C07.bounds", func(d amfDec) bool { return d.expErr })
@@ -582,6 +583,11 @@ func checkNilFuncValues(c *Ctx, fns []*ssa.Function) {
 // checkLockReleased (part of "always returns"): a mutex taken while decoding is released on every path to a return
 // of the function that took it - otherwise the next message that needs it never returns.
 func checkLockReleased(c *Ctx, fns []*ssa.Function) {
+	checkLockReleasedRule(c, "C07.term", "the next decode that needs it never returns", fns)
+}
+
+// checkLockReleasedRule is the same obligation under another rule id (the transaction lock of C04, the writer lock of C18).
+func checkLockReleasedRule(c *Ctx, rule, consequence string, fns []*ssa.Function) {
 	P, R := c.P, c.R
 	lockName := func(cc *ssa.CallCommon) (string, ssa.Value) {
 		f := cc.StaticCallee()
@@ -627,7 +633,7 @@ func checkLockReleased(c *Ctx, fns []*ssa.Function) {
 			for _, b := range fn.Blocks {
 				for _, x := range b.Instrs {
 					if d, isD := x.(*ssa.Defer); isD && releases(d) && (b.Dominates(call.Block()) && (b != call.Block() || core.Precedes(d, call))) {
-						R.OK("C07.term", key, P.InstrPos(call), "released by a deferred "+want+" registered before the acquisition")
+						R.OK(rule, key, P.InstrPos(call), "released by a deferred "+want+" registered before the acquisition")
 						return
 					}
 				}
@@ -657,13 +663,15 @@ func checkLockReleased(c *Ctx, fns []*ssa.Function) {
 			}
 			walk(call.Block(), core.InstrIndex(call)+1)
 			if bad == nil {
-				R.OK("C07.term", key, P.InstrPos(call), "every path from the acquisition to a return releases it ("+want+" or a deferred "+want+")")
+				R.OK(rule, key, P.InstrPos(call), "every path from the acquisition to a return releases it ("+want+" or a deferred "+want+")")
 			} else {
-				R.Fail("C07.term", key, P.InstrPos(call), fmt.Sprintf("the mutex %s taken here is still held at the return at %s: the next decode that needs it never returns", trimRoot(mp), P.InstrPos(bad)), nil)
+				R.Fail(rule, key, P.InstrPos(call), fmt.Sprintf("the mutex %s taken here is still held at the return at %s: %s", trimRoot(mp), P.InstrPos(bad), consequence), nil)
 			}
 		})
 	}
-	R.Extra["mutex_acquisitions_in_decoder_reach"] = n
+	if rule == "C07.term" {
+		R.Extra["mutex_acquisitions_in_decoder_reach"] = n
+	}
 }
 
 // checkLoopCarriedCopy (super-linear shape): a loop must not rebuild its loop-carried string or slice by copying it
@@ -2354,4 +2362,71 @@ func freshErrorValue(v ssa.Value) bool {
 		return isModuleErrorsFn(f, map[string]bool{"errors.New": true, "errors.Errorf": true, "errors.Wrap": true, "errors.Wrapf": true, "errors.WithMessage": true, "errors.WithStack": true})
 	}
 	return false
+}
+
+// checkChunkSizeUnsigned (third part of the guarantee of readMessagePayload|make#1, "min() with a chunk size >= 0"):
+// the size make() is given is a phi/min of the remaining length and the input chunk size; the chunk-size operand is
+// non-negative because it is an unsigned field widened to int.  A signed field (or a sign-changing conversion on the
+// way from the peer's Set Chunk Size) makes a size with the top bit set negative, and make panics.
+func checkChunkSizeUnsigned(c *Ctx) {
+	P, R := c.P, c.R
+	fn := P.Func("rtmp", "(*Protocol).readMessagePayload")
+	if !R.Anchor(fn != nil, "C07.bounds", "rtmp.(*Protocol).readMessagePayload") {
+		return
+	}
+	var bad []string
+	n := 0
+	var nonNeg func(v ssa.Value, d int) bool
+	nonNeg = func(v ssa.Value, d int) bool {
+		if d > 8 {
+			return false
+		}
+		switch x := v.(type) {
+		case *ssa.Const:
+			k, ok := core.ConstInt(x)
+			return ok && k >= 0
+		case *ssa.Convert:
+			from, ok1 := x.X.Type().Underlying().(*types.Basic)
+			to, ok2 := x.Type().Underlying().(*types.Basic)
+			if !ok1 || !ok2 {
+				return false
+			}
+			if from.Info()&types.IsUnsigned != 0 {
+				// unsigned -> wider signed keeps the value; same width or narrower can turn negative
+				return P.SizeOf(to) > P.SizeOf(from) || to.Info()&types.IsUnsigned != 0
+			}
+			return nonNeg(x.X, d+1) && P.SizeOf(to) >= P.SizeOf(from)
+		case *ssa.UnOp:
+			if x.Op == token.MUL {
+				if bt, ok := x.Type().Underlying().(*types.Basic); ok {
+					return bt.Info()&types.IsUnsigned != 0
+				}
+			}
+		case *ssa.Call:
+			if b, ok := x.Call.Value.(*ssa.Builtin); ok && (b.Name() == "len" || b.Name() == "cap") {
+				return true
+			}
+		}
+		return false
+	}
+	core.EachInstr(fn, func(in ssa.Instruction) {
+		ms, ok := in.(*ssa.MakeSlice)
+		if !ok {
+			return
+		}
+		res := core.NewResolver(false)
+		for _, leaf := range core.ValueLeaves(ms.Len) {
+			leaf = res.V(leaf) // a getter or a hoisted local stands for what it returns
+			if !strings.Contains(core.Path(leaf), "chunkSize") {
+				continue // the remaining-length operand: covered by the attached-message invariant
+			}
+			n++
+			if !nonNeg(leaf, 0) {
+				bad = append(bad, core.Path(leaf)+" ("+leaf.Type().String()+") at "+P.InstrPos(ms))
+			}
+		}
+	})
+	R.Check(len(bad) == 0 && n > 0, "C07.bounds", "rtmp|(*Protocol).readMessagePayload|chunk-size-operand-non-negative", P.Pos(fn.Pos()),
+		"the chunk-size operand of the size given to make() is an unsigned value widened to int",
+		"the chunk-size operand of the size given to make() can be negative: "+strings.Join(bad, "; ")+" - a peer's Set Chunk Size with the top bit set makes the next message's make() panic (makeslice: len out of range)", nil)
 }
